@@ -66,11 +66,12 @@ UNIT = {
               'unique table enumeration (getNumEntries/getItems list exactly the nodes labelled with the level of the variable); '
               'unpacked_node::newFromNode/newWritable/Recycle on heap copies; createReducedNode(in, nb, ev, node) stores the node as written and returns the edge value 0 (no normalisation, no reduction, no duplicate search: '
               'the real one is under contract in U-reduce; value + stored values is what the real one preserves); modifyReducedNodeInPlace overwrites the stored node; variable_order::exchange swaps the two variables'],
-    'assumptions': ['BOUNDED: at most SW_NODES stored nodes before the swap (2 in the quick tier, 3 in the thorough tier), variable sizes 2..SW_MAXSZ, one adjacent pair of levels; not counted as proved',
+    'assumptions': ['BOUNDED: at most 2 stored nodes before the swap, both variables of size 2 (sizes 2..3 in the thorough tier), edge values in [0, 2^40), one adjacent pair of levels; not counted as proved',
                     'at entry every node labelled level+1 has children labelled <= level and every node labelled level has children labelled < level (C02 at entry)'],
     'unverified_surroundings': {'C13': ['reordering/*.h schedules', 'forests/mtmxd.cc swaps', 'forest.cc reorderVariables, removeAllComputeTableEntries'],
                                 'C02': ['forests/mtmxd.cc swaps']},
     'jobs': [
-        job('swap_adjacent_evmdd_2', ['C99'], defines=['SW_NODES=2', 'SW_MAXSZ=2'], entry='h_swap_adjacent_evmdd'),
+        job('swap_adjacent_evmdd_2', ['C13', 'C02'], defines=['SW_NODES=2', 'SW_MAXSZ=2'], entry='h_swap_adjacent_evmdd', unwind=9, object_bits=12),
+        job('swap_adjacent_evmdd_2x3', ['C13', 'C02'], defines=['SW_NODES=2', 'SW_MAXSZ=3'], entry='h_swap_adjacent_evmdd', unwind=12, object_bits=12, tier='thorough', timeout=7200),
     ],
 }
